@@ -236,7 +236,27 @@ class Crypto(object):
                 _exc_fields(I2, e, cls)
                 P.event('raise', cls.__name__)
                 raise _pyvc().Raised(e)
-            return Opaque('object', 'crypto.' + name, taint=frozenset(['secret']))
+            sec = frozenset(['secret'])
+
+            def tb(n):
+                return SSeq('bytes', [('s', fresh("crypto_" + n, IntSeq))], sec)
+
+            def optb(n):
+                return SOpt(fresh("no_" + n, z3.BoolSort()), tb(n))
+            if name == 'encrypt':
+                return {'cipher_text': tb('cipher_text'), 'iv_nonce': optb('iv_nonce'), 'auth_tag': optb('auth_tag')}
+            if name in ('decrypt', 'sign', 'mac', 'derive_key', 'wrap_key'):
+                return tb(name)
+            if name == 'verify_signature':
+                return SBool(fresh("signature_valid", z3.BoolSort()))
+            if name == 'create_symmetric_key':
+                from kmip.core import enums
+                return {'value': tb('key'), 'format': enums.KeyFormatType.RAW}
+            if name == 'create_asymmetric_key_pair':
+                from kmip.core import enums
+                return ({'value': tb('public'), 'format': enums.KeyFormatType.PKCS_1, 'public_exponent': 65537},
+                        {'value': tb('private'), 'format': enums.KeyFormatType.PKCS_8, 'public_exponent': 65537})
+            return Opaque('object', 'crypto.' + name, taint=sec)
         call._pyvc_model = True
         return _pyvc().BoundMethod(obj, _drop_self(call))
 
